@@ -7,7 +7,7 @@ import math
 import z3
 
 from .loader import ClassInfo
-from .values import (ANY, CannotMerge, ClassRef, ExtRef, Opt, Ref, Sym, Unsupported, any_truthy, dt_ts, enum_member, fresh,
+from .values import (ANY, CannotMerge, ClassRef, ExtRef, Opt, Ref, Sym, Unsupported, any_truthy, dt_off, dt_ts, enum_member, fresh,
                      is_concrete, is_realish, is_sym, simp, zbool, zint, zreal, zstr)
 
 T, F = z3.BoolVal(True), z3.BoolVal(False)
@@ -350,6 +350,11 @@ def binop(st, op, a, b):
         return Sym("str", z3.Concat(zstr(a), zstr(b)))
     if is_sym(a, "dt") and is_sym(b, "dt") and isinstance(op, ast.Sub):
         return Sym("td", dt_ts(a.t) - dt_ts(b.t))   # timedelta as exact seconds (datetime arithmetic is integer microseconds: no rounding)
+    if isinstance(op, ast.Add) and ((is_sym(a, "dt") and is_sym(b, "td")) or (is_sym(a, "td") and is_sym(b, "dt"))):
+        d, t = (a, b) if is_sym(a, "dt") else (b, a)
+        r = fresh("dt", "shifted")            # datetime + timedelta: exact (integer microseconds), same zone
+        st.assume(z3.And(dt_ts(r.t) == dt_ts(d.t) + t.t, dt_off(r.t) == dt_off(d.t)))
+        return r
     if is_sym(a, "td") and is_sym(b, "td") and isinstance(op, ast.FloorDiv):
         return Sym("int", z3.ToInt(a.t / b.t))      # floor of the exact quotient (divisor positive: a constant unit)
     if is_sym(a, "dt") or is_sym(b, "dt") or is_sym(a, "td") or is_sym(b, "td"):
